@@ -228,6 +228,13 @@ func enumShapes(e *EnumSpec, o *GenumOpts) []string {
 		}
 		seenLower[lc] = true
 	}
+	// a constant named like an identifier the template binds in a function body (a local variable, a
+	// parameter, the receiver): the generator must refuse it or keep its own identifier out of the way
+	for _, l := range lines {
+		if contains(templateLocals(), l.Name) {
+			add("const_named_like_template_local")
+		}
+	}
 	groups := map[string][]EnumLine{}
 	for _, l := range lines {
 		groups[l.Value] = append(groups[l.Value], l)
